@@ -706,6 +706,17 @@ impl<'a> Driver<'a> {
                     let _ = f.calculate_max_input(self.sched.rng.usize_in(0, 30000));
                     let _ = f.can_proceed();
                 }
+                if f.can_proceed() && self.body_pos >= self.req_body.len() && self.sched.queries && self.sched.rng.chance(1, 5) {
+                    // one more finishing call on a finished body: allowed, and it must add nothing to the wire
+                    let out = self.sched.body_out.size(&mut self.sched.rng, 16).max(6);
+                    let mut buf = vec![0u8; out];
+                    rec.call();
+                    if let Ok((_, p)) = f.write(&[], &mut buf) {
+                        rec.ev(|| format!("SendBody.write(in=0, out={}) on the finished body -> produced {}", out, p));
+                        self.body_out.extend_from_slice(&buf[..p.min(out)]);
+                        self.finished_body_write_calls += 1;
+                    }
+                }
                 if f.can_proceed() && self.body_pos >= self.req_body.len() {
                     rec.call();
                     match f.proceed() {
